@@ -385,8 +385,8 @@ pub fn c01(tier: &str, seed: u64) -> i32 {
     if ctx.run.violations.is_empty() {
         // histories that start where offsets are about to need one more byte (16 KiB): seeded images
         let specs = vec![
-            crate::props_c08::SeedSpec { file: "val", boundary: 16 * 1024, eps: 16, free_slots: 0 },
-            crate::props_c08::SeedSpec { file: "key", boundary: 16 * 1024, eps: 16, free_slots: 2 },
+            crate::props_c08::SeedSpec { file: "val", boundary: 16 * 1024, eps: 16, free_slots: 0 , val_pad: 0},
+            crate::props_c08::SeedSpec { file: "key", boundary: 16 * 1024, eps: 16, free_slots: 2 , val_pad: 0},
         ];
         crate::props_c08::seeded_group(&mut ctx, "C01", O_API, 0, 2, vec![3, 200], &specs, 60_000, 10.0);
     }
@@ -604,8 +604,9 @@ pub fn c06(tier: &str, seed: u64) -> i32 {
     }
     if ctx.run.violations.is_empty() {
         let specs = vec![
-            crate::props_c08::SeedSpec { file: "val", boundary: 16 * 1024, eps: 16, free_slots: 2 },
-            crate::props_c08::SeedSpec { file: "key", boundary: 16 * 1024, eps: 0, free_slots: 2 },
+            crate::props_c08::SeedSpec { file: "val", boundary: 16 * 1024, eps: 16, free_slots: 2 , val_pad: 0},
+            crate::props_c08::SeedSpec { file: "key", boundary: 16 * 1024, eps: 0, free_slots: 2, val_pad: 0 },
+            crate::props_c08::SeedSpec { file: "key", boundary: 128 * 1024, eps: 0, free_slots: 2, val_pad: 1200 },
         ];
         crate::props_c08::seeded_group(&mut ctx, "C06", o, clauses, 2, vec![3, 200], &specs, 60_000, 10.0);
     }
@@ -684,8 +685,8 @@ pub fn c17(tier: &str, seed: u64) -> i32 {
     if ctx.run.violations.is_empty() {
         // states in which key records have been relocated (16 KiB seeds)
         let specs = vec![
-            crate::props_c08::SeedSpec { file: "val", boundary: 16 * 1024, eps: 16, free_slots: 0 },
-            crate::props_c08::SeedSpec { file: "key", boundary: 16 * 1024, eps: 16, free_slots: 2 },
+            crate::props_c08::SeedSpec { file: "val", boundary: 16 * 1024, eps: 16, free_slots: 0 , val_pad: 0},
+            crate::props_c08::SeedSpec { file: "key", boundary: 16 * 1024, eps: 16, free_slots: 2 , val_pad: 0},
         ];
         crate::props_c08::seeded_group(&mut ctx, "C17", o, clauses, 2, vec![3, 200], &specs, 60_000, 10.0);
         class_ladder(&mut ctx, "C17", o, clauses, false, 3);
